@@ -43,12 +43,22 @@ from .abc import AbstractAsyncNetworkClient
 class _SocketConnector:
     factory: Callable[[], Awaitable[tuple[AsyncDatagramTransport, SocketProxy]]]
     scope: CancelScope
+    unused_socket: _socket.socket | None = None
 
     async def get(self) -> tuple[AsyncDatagramTransport, SocketProxy] | None:
+        # From now on, the socket given by the user (if any) belongs to the factory.
+        self.unused_socket = None
         result: tuple[AsyncDatagramTransport, SocketProxy] | None = None
         with self.scope:
             result = await self.factory()
         return result
+
+    def abort(self) -> None:
+        self.scope.cancel()
+        # The client owns the socket given by the user: close it if it has never been used.
+        unused_socket, self.unused_socket = self.unused_socket, None
+        if unused_socket is not None:
+            unused_socket.close()
 
 
 class AsyncUDPNetworkClient(AbstractAsyncNetworkClient[_T_SentPacket, _T_ReceivedPacket]):
@@ -139,6 +149,7 @@ class AsyncUDPNetworkClient(AbstractAsyncNetworkClient[_T_SentPacket, _T_Receive
         self.__socket_connector: _SocketConnector | None = _SocketConnector(
             factory=_utils.make_callback(self.__create_socket, socket_factory),
             scope=backend.open_cancel_scope(),
+            unused_socket=__arg if isinstance(__arg, _socket.socket) else None,
         )
         self.__socket_connector_lock: ILock = backend.create_lock()
         self.__receive_lock: ILock = backend.create_lock()
@@ -236,7 +247,7 @@ class AsyncUDPNetworkClient(AbstractAsyncNetworkClient[_T_SentPacket, _T_Receive
         Can be safely called multiple times.
         """
         if self.__socket_connector is not None:
-            self.__socket_connector.scope.cancel()
+            self.__socket_connector.abort()
             self.__socket_connector = None
         try:
             async with self.__send_lock:
